@@ -20,16 +20,18 @@ BOUNDED = {
          'connected complete corpus symbols of size <= 5, their oriented covers, all covers with <= 4 sheets of six one- and two-chamber symbols: is_minimal / size of '
          'minimal_image against the coarsest degree-respecting congruence computed by partition refinement; a symbol maps onto its minimal image; covers and base have '
          'minimal images of equal size; morphism None against brute force over all maps for sizes <= 4'),
- 'C05': ('degree preservation of oriented_cover (the deductive contract covers operations only)',
-         'complete corpus symbols of size <= 5: projection commutes with every operation and preserves every degree m(i, i+1)'),
+ 'C05': ('degree preservation / orientedness / sheet number of oriented_cover, and covers() (the deductive contract covers operations only; covers() depends on the low-index enumeration)',
+         'complete corpus symbols of size <= 5: projection commutes with every operation and preserves every degree m(i, i+1); the oriented cover is oriented, connected for a '
+         'connected base, and has one sheet iff the base is oriented (bipartite and loopless, computed independently); covers(ds, k), k <= 3, of seven one- to four-chamber symbols: '
+         'every entry is complete, connected, has <= k sheets and maps onto the base by a morphism'),
  'C10': ('(every clause is also decided deductively)', 'all words over 2 generators up to length 5 and all pairs of reduced words up to length 3, exponents -3..3, rotations -3..6'),
  'C11': ('coset_table (Todd-Coxeter with coincidences, RangeFrom loops, BTreeSet iteration, merge/compact: outside the verifier)',
-         '13 fixed presentations (<= 3 generators, index <= 60) and 210 pseudo-random subgroups (1-3 generators, words of length <= 4, fixed seed) of the Coxeter groups S4 and S5, '
+         '13 fixed presentations (<= 3 generators, index <= 60) and 1800 pseudo-random subgroups (1-3 generators, words of length <= 4, fixed seed) of the Coxeter groups S4 and S5, '
          'index computed independently from the permutation representation: row count = index, generators act as mutually inverse permutations, transitive, every relator closes at '
          'every row, subgroup generators fix row 0, coset representatives trace to their rows'),
  'C18': ('exact rank / determinant / solve of the machine-integer backend (matrix algebra over generic Entry: outside the contracts)',
          '600 random integer matrices of every shape up to 4x5 (rank against fraction-free elimination on i128) and 400 square ones up to 4x4 (determinant against Bareiss on i128, '
-         'solve returns true solutions), entries in -3..=3, fixed seed; residues: 217 boundary and random integers for P in {2, 3, 61, 3037000493}'),
+         'solve returns true solutions), entries in -3..=3, fixed seed; the p-adic modular solver on 300 random systems (n <= 3, entries up to 10^9, large and tiny right-hand sides: A x = b exactly); residues: 217 boundary and random integers for P in {2, 3, 61, 3037000493}'),
  'C20': ('(every clause is also decided deductively, at T = usize)', '1500 random mixed histories (unite / find / classes on random sub-multisets / clone) and 30000 union-heavy histories over <= 9 elements, '
          'both partitions, compared with a naive model; clones compared with the model at cloning time'),
 }
